@@ -156,6 +156,7 @@ struct Exec {
   // shadow: the same request handed to a strictly validating Assembler (Builder executions with kValidateIntermediate)
   CodeHolder sh_code; std::unique_ptr<BaseAssembler> sh_asm;
   std::string extra_json;                 // extra fields of the next Call event
+  int next_di = 0;                        // the next emit_tuple() request is documented-invalid (must be refused)
   bool will_skip() const { return ref_pass && skip && call_idx < skip->size() && (*skip)[call_idx]; }
 
   // Fast-path configuration (Assembler, general mode): no logger, no diagnostic option - the emitter's inlined fast path.
@@ -602,6 +603,7 @@ struct Exec {
     em->set_extra_reg(x);
     em->set_inline_comment(cmt);
     char xj[96]; snprintf(xj, sizeof xj, ",\"vr\":%d,\"fr\":%d", vr, fr); extra_json = xj;
+    if (next_di) { extra_json += ",\"di\":1"; next_di = 0; }
     if (twin_rcs && call_idx < twin_rcs->size() && (*twin_rcs)[call_idx] != 0xFFFFFFFFu) { snprintf(xj, sizeof xj, ",\"tw\":%u", (*twin_rcs)[call_idx]); extra_json += xj; }
     // the shadow result is needed inside the event: run the call through a small wrapper that fills it in afterwards
     uint32_t rc_main = 0;
@@ -682,6 +684,9 @@ struct Exec {
     else if (c < 96) { t = LabelType::kGlobal; parent = valid_label_id(); named++; }             // global with a parent
     else { t = LabelType::kExternal; named++; }
     char in[96]; snprintf(in, sizeof in, "name=%.24s size=%zd type=%u parent=%u", nm, ssize_t(sz), unsigned(t), parent);
+    // documented-invalid parent: a local label needs an existing label as its parent, global/external labels take none
+    if ((t == LabelType::kLocal && parent >= code.label_count()) ||
+        ((t == LabelType::kGlobal || t == LabelType::kExternal) && parent != Globals::kInvalidId)) extra_json = ",\"di\":1";
     call("named", in, [&]() -> uint32_t { Label L = em->new_named_label(nm, sz, t, parent); if (L.is_valid()) { labels.push_back(L.id()); return 0; } return h.codes.empty() ? 0xFFFFu : h.codes[0]; });
   }
   void c_bind() {
@@ -800,6 +805,35 @@ struct Exec {
     call("embed", in, [&]() -> uint32_t { return uint32_t(em->embed(pad.data(), n)); });
     char in2[48]; snprintf(in2, sizeof in2, "label=%u", L);
     call("bind", in2, [&]() -> uint32_t { return uint32_t(em->bind(Label(L))); });
+  }
+
+  // AArch64 Assembler: word-scaled pc-relative reference to a label bound in this section at a misaligned distance
+  void c_misref() {
+    if (is_x86 || emk != 0) return;
+    c_new_label();
+    if (labels.empty()) return;
+    uint32_t L = labels.back();
+    char in2[48]; snprintf(in2, sizeof in2, "label=%u", L);
+    call("bind", in2, [&]() -> uint32_t { return uint32_t(em->bind(Label(L))); });
+    if (!code.is_label_bound(L)) return;
+    static const uint8_t z[8] = {0};
+    unsigned c = unsigned(r.below(6));
+    size_t n = c < 3 ? size_t(1 + r.below(3)) + 4 * size_t(r.below(3)) : 4 * size_t(r.below(3));   // misaligned distance, or aligned + misaligned offset
+    if (n) { char in[48]; snprintf(in, sizeof in, "data=z size=%zu", n); call("embed", in, [&]() -> uint32_t { return uint32_t(em->embed(z, n)); }); }
+    Operand_ ops[3]; Operand lab = Label(L);
+    Operand w0 = a64::w(uint32_t(r.below(8))); Operand x0 = a64::x(uint32_t(r.below(8))); Operand bit = Imm(1);
+    next_di = 1;
+    switch (c) {
+      case 0: ops[0] = lab; emit_tuple(r.chance(1, 2) ? a64::Inst::kIdB : a64::Inst::kIdBl, 0, RegOnly{}, nullptr, ops, 1, "misref"); break;
+      case 1: ops[0] = w0; ops[1] = lab; emit_tuple(r.chance(1, 2) ? a64::Inst::kIdCbz : a64::Inst::kIdCbnz, 0, RegOnly{}, nullptr, ops, 2, "misref"); break;
+      case 2: ops[0] = w0; ops[1] = bit; ops[2] = lab; emit_tuple(a64::Inst::kIdTbz, 0, RegOnly{}, nullptr, ops, 3, "misref"); break;
+      default: {
+        Operand m = a64::ptr(Label(L), int32_t(1 + r.below(3)) + 4 * int32_t(r.below(4)));
+        ops[0] = c == 3 ? w0 : x0; ops[1] = m;
+        emit_tuple(c == 5 ? a64::Inst::kIdLdrsw : a64::Inst::kIdLdr, 0, RegOnly{}, nullptr, ops, 2, "misref"); break;
+      }
+    }
+    next_di = 0;
   }
 
   // ---- finishing phase: the consumers of the holder state ------------------------------------------------------------
@@ -1134,9 +1168,11 @@ struct Exec {
         emit_tuple(is_x86 ? uint32_t(x86::Inst::kIdMov) : uint32_t(a64::Inst::kIdMov), 0, RegOnly{}, nullptr, ops, 2, "form");
       }
     }
+    size_t misref_at = r.chance(1, 2) ? r.below(calls + 1) : SIZE_MAX;
     size_t shortref_at = r.chance(1, 2) ? calls / 2 + r.below(calls / 2 + 1) : SIZE_MAX;
     for (size_t i = 0; i < calls; i++) {
       if (i == shortref_at && attached) c_shortref();
+      if (i == misref_at && attached) c_misref();
       unsigned c = unsigned(r.below(100));
       if (c < 22) inst_from_form(true);
       else if (c < 50) inst_from_form(false);
